@@ -63,13 +63,16 @@ TraceHdrBuilds ==
   /\ \A i \in 1 .. Len(Ev.c) :
        Rule(l, "HdrFields", HdrBuildOK(Ev.c[i]), <<"build", Ev.c[i]>>)
 
-(* flag algebra: e.a = start mask; e.ops[i] = <<b, afterSet, afterRemove, has>> *)
+(* flag algebra: e.a = start mask; e.ops[i] = <<b, afterSet, afterRemove, has, peekHas, parsedHas>> *)
 FlagOpOK(a, o) ==
   LET A == HdrFlagSet(a)
       Bs == HdrFlagSet(o[1])
   IN /\ o[2] = MaskOf(FlagsSet(A, Bs))
      /\ o[3] = MaskOf(FlagsRemove(A, Bs))
      /\ o[4] = FlagsHas(A, Bs)
+     \* has_flags means "all of them", for the packet, for the peek on its serialised header and for the packet
+     \* parsed back from it (flag sets of any size, the empty one included)
+     /\ o[5] = FlagsHas(A, Bs) /\ o[6] = FlagsHas(A, Bs)
 
 TraceFlagOps ==
   /\ Ev.ev = "FlagOps"
@@ -525,6 +528,22 @@ TraceE2E ==
      /\ Rule(l, "E2EGoodbye", (A # <<>> /\ Ev.flavour = "sync") => \E a \in 1 .. Len(A) : Goodbye(A[a]),
              <<"a peer that said goodbye is still listed three seconds later, in every attempt", Ev.flavour>>)
 
+(* Framed (C04): packets without a wire form of their own (extended rcode, no OPT) were serialised plain and     *)
+(* compressed (e.outs); whatever was written must be a well-framed message: counts = entries written, every       *)
+(* RDLENGTH exact, nothing after the last entry -- with e.counts questions / answers / authority records and      *)
+(* e.counts[4] or e.counts[4] + 1 additional records (an OPT the serialiser may add must be counted)              *)
+TraceFramed ==
+  /\ Ev.ev = "Framed"
+  /\ \A i \in 1 .. Len(Ev.outs) :
+       LET o == Ev.outs[i]
+           d == IF o[1] = "ok" THEN RefDecode(o[2]) ELSE MErr("n/a") IN
+       /\ Rule(l, "NoPanic", o[1] # "panic", <<"serialise", o>>)
+       /\ Rule(l, "WellFramed",
+               o[1] = "ok" => (/\ d.ok /\ d.exact /\ d.end = Len(o[2])
+                               /\ d.counts[1] = Ev.counts[1] /\ d.counts[2] = Ev.counts[2] /\ d.counts[3] = Ev.counts[3]
+                               /\ d.counts[4] \in {Ev.counts[4], Ev.counts[4] + 1}),
+               <<"output", i, IF d.ok THEN <<"end", d.end, "len", Len(o[2]), "counts", d.counts>> ELSE d.why>>)
+
 (* ApiTrace (C02, C08): an API history of the builder machine (Builder.tla) was replayed    *)
 (* on a real Packet; e.states[i] is the projection of the real packet after call i       *)
 TraceApi ==
@@ -688,7 +707,7 @@ Stateless ==
            \/ TraceNameNew \/ TraceLabelNew \/ TraceNameRel
            \/ TraceTxtSplit \/ TraceTxtAttrs \/ TraceTxtRaw \/ TraceTxtLong \/ TraceCStrNew
            \/ TraceDiscover \/ TraceEscape \/ TraceDatagram \/ TraceNetRun
-           \/ TraceApi \/ TraceE2E \/ TraceSvcbApi \/ TraceValueCmp \/ TraceParse \/ TracePeek \/ TraceInspect \/ TraceSinkBuild \/ TraceRoundTrip \/ TraceReparse
+           \/ TraceApi \/ TraceFramed \/ TraceE2E \/ TraceSvcbApi \/ TraceValueCmp \/ TraceParse \/ TracePeek \/ TraceInspect \/ TraceSinkBuild \/ TraceRoundTrip \/ TraceReparse
            \/ TraceCodeConv \/ TraceMnemonics \/ TraceMatchType \/ TraceMatchClass
 
 Next == /\ l <= Len(Rec)
